@@ -3,6 +3,24 @@ package main
 // Family scope (C17): the scope helpers of package flyio and token expiry, against the model
 // (scope.* lines) and against brute-force CaveatSet.Validate over the id universe, which is the
 // declarative oracle of the soundness theorems (spec.scope.* lines: "sound" / "unsound:<clause>:<id>").
+//
+// Input space (widened by the generator audit after round 17; every choice is counted under gen.* / set.* / oracle.*):
+//   masks and actions  the seven usual ones, plus every single bit, masks missing one bit, bits above the five
+//                      named ones, random 16-bit values (E9 sweeps AppsAllowing over masks built around the action)
+//   org / app ids      0-3, plus 999 (the helpers' own placeholder), word boundaries, ids equal in their low 32 bits,
+//                      ids differing in bit 63, the maximum
+//   cluster ids        "", a, ab, b, plus letter case, prefixes, white space, separators, NUL and high bytes, Unicode
+//                      (composed / decomposed / full width / case pairs), "*", "0", percent escapes, 300-byte ids
+//   resource maps      0-3 entries, sometimes 4-8 (thorough: up to 20), nil map vs empty map
+//   conditionals       0-5 children, nesting 1-4 (thorough 6; chains of 3-8, thorough 20 and 60), no Ifs at all
+//                      (nil), empty Ifs, children that are the very object used elsewhere, one Ifs shared by two
+//   sets               0-3 of each kind, sometimes 4-6 of a kind, the same object twice, an equal copy, shuffled
+//   windows            open now / any two bounds / empty and one-instant; bounds around 2^31, 2^32, year 9999, negative
+//   oracle universe    the fixed ids + every id the set mentions + their folded variants (case, trimming, a byte or
+//                      separator more or less; low 32 bits, bit 63, neighbours)
+//   expiry             literal struct, minted token, decoded token, the set its verification returns
+//   purity             every helper asked again in another order answers the same and leaves the set as it was
+//                      (spec.scope.pure)
 
 import (
 	"fmt"
@@ -18,7 +36,7 @@ import (
 
 func init() { families["scope"] = famScope }
 
-// the small universe
+// the small universe (the bulk of every pool: small enough that caveats of one set collide and conflict)
 var (
 	scMasks      = []resset.Action{0, 1, 2, 3, 31, 0xffff, 32}
 	scOrgIDs     = []uint64{0, 1, 2, 3}
@@ -29,80 +47,220 @@ var (
 	// actions the brute-force oracle requests (0 is the weakest demand, 31 the usual strongest)
 	scOracleActions = []resset.Action{0, 31}
 	// ids no generated caveat ever mentions
-	scProbeOrg     = uint64(7)
-	scProbeApp     = uint64(7)
+	scProbeOrg     = uint64(12345)
+	scProbeApp     = uint64(12345)
 	scProbeCluster = "zz"
 )
+
+// the wide pools (generator audit after round 17): what the quantifier ranges over and the small universe lacks.
+var (
+	// "any masks": every single permission bit, masks that miss exactly one bit, bits above the five named ones,
+	// complements (two masks of a set may intersect to nothing)
+	scMasksWide = []resset.Action{4, 8, 16, 5, 10, 15, 27, 29, 30, 23, 33, 63, 0x20, 0x8000, 0x7fff, 0xffe0, 0xfffe, 0xffef}
+	// ids: the helpers' own placeholder organization (999), byte/word boundaries, ids that differ only above
+	// bit 31 / in bit 63 (a truncating or signed comparison conflates or reorders them), the maximum
+	scIDsWide = []uint64{7, 9, 10, 999, 255, 256, 65535, 65536, 1<<31 - 1, 1 << 31, 1<<32 - 1, 1 << 32, 1<<32 | 1, 1<<32 | 2,
+		1<<63 - 1, 1 << 63, 1<<63 | 1, 1<<64 - 2, 1<<64 - 1}
+	// cluster ids: letter case, prefixes of one another, white space, separators, NUL / high bytes, Unicode
+	// (precomposed, decomposed, full-width, case pairs without a 1:1 mapping), look-alikes of the wildcard, percent
+	// escapes, the feature name, a long id
+	scClusterWide = []string{"A", "B", "Ab", "aB", "AB", "aa", "abc", "abcd", "a ", " a", " ", "\ta", "a/b", "a/", "/a", "/", "a,b", "a:b",
+		"a.b", "a;b", "a\x00", "\x00", "\x00a", "\xff", "a\xff", "\xc3\xa9", "\xc3\x89", "e\xcc\x81", "\xef\xbd\x81", "\xc3\x9f", "SS", "ss", "*", "0", "%61", "a%2Fb",
+		flyio.FeatureLFSC, strings.Repeat("a", 300), strings.Repeat("a", 299) + "b"}
+	scFeaturesWide = []string{"WG", "Wg", "wg ", "Litefs-Cloud", "LITEFS-CLOUD", "litefs-cloud/", flyio.FeatureBilling, flyio.FeatureRemoteBuilders, "app", "cluster", "*"}
+	// validity bounds a 32-bit or a millisecond confusion would fold: around 2^31 and 2^32, year 9999/10000, small
+	// and negative values
+	scBoundsWide = []int64{1<<31 - 1, 1 << 31, 1<<32 - 1, 1 << 32, 1<<32 + 1_800_000_000, 253402300799, 253402300800, 1 << 40, 1 << 53, 1<<62 + 1,
+		1, -1, -1_800_000_000, -1 << 31, -1 << 32, -62135596801, -62135596800, -1<<63 + 1}
+)
+
+var scTokenKey = []byte("0123456789abcdef0123456789abcdef") // 32 bytes
 
 const scMaxUnix = int64(1<<63 - 62135596801) // maxTime.Unix()
 
 var scMaxTime = time.Unix(scMaxUnix, 999999999)
 
 type scopeCtx struct {
-	r    *Rng
-	o    *Out
-	wnow int64 // wall clock at family start; generated bounds stay >= 1h away from it
+	r        *Rng
+	o        *Out
+	wnow     int64 // wall clock at family start; generated bounds stay >= 1h away from it
+	thorough bool
+	recent   []macaroon.Caveat // leaves made lately: the source of aliased (pointer-shared) occurrences
 }
 
 // ---- generators ----
 
-func (x *scopeCtx) orgCav() macaroon.Caveat {
-	id := pick(x.r, scOrgIDs)
-	if x.r.Chance(1, 15) {
-		id = pick(x.r, []uint64{999, 1<<64 - 1, scProbeOrg})
+func (x *scopeCtx) mask() resset.Action {
+	switch x.r.Intn(12) {
+	case 0, 1, 2:
+		x.stat("gen.mask.wide")
+		return pick(x.r, scMasksWide)
+	case 3:
+		x.stat("gen.mask.random")
+		return resset.Action(x.r.U64())
+	default:
+		x.stat("gen.mask.small")
+		return pick(x.r, scMasks)
 	}
-	return &flyio.Organization{ID: id, Mask: pick(x.r, scMasks)}
+}
+
+func (x *scopeCtx) action() resset.Action {
+	switch x.r.Intn(8) {
+	case 0, 1:
+		x.stat("gen.action.wide")
+		return pick(x.r, scMasksWide)
+	case 2:
+		x.stat("gen.action.random")
+		return resset.Action(x.r.U64())
+	case 3:
+		x.stat("gen.action.maskpool")
+		return pick(x.r, scMasks)
+	default:
+		x.stat("gen.action.small")
+		return pick(x.r, scActions)
+	}
+}
+
+func (x *scopeCtx) u64id(small []uint64, what string) uint64 {
+	if x.r.Chance(1, 6) {
+		x.stat("gen." + what + ".id.wide")
+		return pick(x.r, scIDsWide)
+	}
+	x.stat("gen." + what + ".id.small")
+	return pick(x.r, small)
+}
+
+func (x *scopeCtx) clusterID() string {
+	if x.r.Chance(1, 5) {
+		x.stat("gen.cluster.id.wide")
+		return pick(x.r, scClusterWide)
+	}
+	x.stat("gen.cluster.id.small")
+	return pick(x.r, scClusterIDs)
+}
+
+// how many entries a resource map gets: mostly 0-3, sometimes more (the lists the helpers sort), rarely nil
+func (x *scopeCtx) mapLen(what string) int {
+	n := x.r.Intn(4)
+	if x.r.Chance(1, 10) {
+		n = 4 + x.r.Intn(5)
+		if x.thorough && x.r.Chance(1, 4) {
+			n = 9 + x.r.Intn(12)
+		}
+	}
+	switch {
+	case n == 0:
+		x.stat("gen." + what + ".len0")
+	case n <= 3:
+		x.stat("gen." + what + ".len1-3")
+	default:
+		x.stat("gen." + what + ".len4+")
+	}
+	return n
+}
+
+func (x *scopeCtx) remember(c macaroon.Caveat) macaroon.Caveat {
+	if len(x.recent) < 8 {
+		x.recent = append(x.recent, c)
+	} else {
+		x.recent[x.r.Intn(len(x.recent))] = c
+	}
+	return c
+}
+
+func (x *scopeCtx) orgCav() macaroon.Caveat {
+	return x.remember(&flyio.Organization{ID: x.u64id(scOrgIDs, "org"), Mask: x.mask()})
 }
 
 func (x *scopeCtx) appsCav() macaroon.Caveat {
-	m := resset.ResourceSet[uint64, resset.Action]{}
-	for i, n := 0, x.r.Intn(4); i < n; i++ {
-		id := pick(x.r, scAppIDs)
-		if x.r.Chance(1, 15) {
-			id = pick(x.r, []uint64{999, 1<<64 - 1})
-		}
-		m[id] = pick(x.r, scMasks)
+	n := x.mapLen("apps")
+	if n == 0 && x.r.Chance(1, 3) {
+		x.stat("gen.apps.nilmap")
+		return x.remember(&flyio.Apps{})
 	}
-	return &flyio.Apps{Apps: m}
+	m := resset.ResourceSet[uint64, resset.Action]{}
+	for i := 0; i < n; i++ {
+		id := x.u64id(scAppIDs, "apps")
+		if n > 3 && x.r.Chance(1, 2) {
+			// a long map draws from more ids, or it would only ever hold the four small ones
+			id = pick(x.r, []uint64{4, 5, 6, 8, 9, 10, 11, 19, 20, 21, 100, 101})
+		}
+		m[id] = x.mask()
+	}
+	return x.remember(&flyio.Apps{Apps: m})
 }
 
 func (x *scopeCtx) clustersCav() macaroon.Caveat {
-	m := resset.ResourceSet[string, resset.Action]{}
-	for i, n := 0, x.r.Intn(4); i < n; i++ {
-		id := pick(x.r, scClusterIDs)
-		if x.r.Chance(1, 15) {
-			id = pick(x.r, []string{"abc", "\x00", "A", "\xff"})
-		}
-		m[id] = pick(x.r, scMasks)
+	n := x.mapLen("clusters")
+	if n == 0 && x.r.Chance(1, 3) {
+		x.stat("gen.clusters.nilmap")
+		return x.remember(&flyio.Clusters{})
 	}
-	return &flyio.Clusters{Clusters: m}
+	m := resset.ResourceSet[string, resset.Action]{}
+	for i := 0; i < n; i++ {
+		id := x.clusterID()
+		if n > 3 && x.r.Chance(1, 2) {
+			id = pick(x.r, scClusterWide)
+		}
+		m[id] = x.mask()
+	}
+	return x.remember(&flyio.Clusters{Clusters: m})
 }
 
 func (x *scopeCtx) featureCav() macaroon.Caveat {
 	m := resset.ResourceSet[string, resset.Action]{}
 	for i, n := 0, 1+x.r.Intn(2); i < n; i++ {
-		m[pick(x.r, scFeatures)] = pick(x.r, scMasks)
+		f := pick(x.r, scFeatures)
+		if x.r.Chance(1, 6) {
+			x.stat("gen.feature.wide")
+			f = pick(x.r, scFeaturesWide)
+		}
+		m[f] = x.mask()
 	}
-	return &flyio.FeatureSet{Features: m}
+	return x.remember(&flyio.FeatureSet{Features: m})
 }
 
 func (x *scopeCtx) bound() int64 {
-	switch x.r.Intn(12) {
+	switch x.r.Intn(14) {
 	case 0:
+		x.stat("gen.bound.limit")
 		return pick(x.r, []int64{-1 << 63, 1<<63 - 1, scMaxUnix, scMaxUnix - 1, scMaxUnix + 1, 0, -62135596800})
 	case 1, 2:
+		x.stat("gen.bound.basenow")
 		return baseNow + int64(x.r.Intn(7)) - 3
+	case 3, 4:
+		x.stat("gen.bound.wide")
+		return pick(x.r, scBoundsWide)
 	default:
-		return x.wnow + pick(x.r, []int64{-86400 * 365, -86400, -7200, -3600, 3600, 7200, 86400, 86400 * 365})
+		x.stat("gen.bound.nearnow")
+		return x.wnow + pick(x.r, []int64{-86400 * 365, -86400, -7200, -3600, 3600, 7200, 86400, 86400 * 365, 86400 * 365 * 30})
 	}
 }
 
 func (x *scopeCtx) windowCav() macaroon.Caveat {
-	if x.r.Chance(1, 2) {
+	switch x.r.Intn(8) {
+	case 0, 1, 2, 3:
 		// a window that is open now
-		return &macaroon.ValidityWindow{NotBefore: x.wnow - pick(x.r, []int64{3600, 86400}), NotAfter: x.wnow + pick(x.r, []int64{3600, 7200, 86400, scMaxUnix - x.wnow, 1<<63 - 1 - x.wnow})}
+		x.stat("gen.window.open")
+		na := x.wnow + pick(x.r, []int64{3600, 7200, 86400, scMaxUnix - x.wnow, 1<<63 - 1 - x.wnow})
+		if x.r.Chance(1, 4) {
+			// ... and ends beyond 2038 / 2106 / year 9999
+			na = pick(x.r, []int64{1<<31 - 1, 1 << 31, 1<<32 - 1, 1 << 32, 1<<32 + 1_800_000_000, 253402300799, 253402300800, 1 << 40, 1 << 53, 1<<62 + 1})
+		}
+		nb := x.wnow - pick(x.r, []int64{3600, 86400})
+		if x.r.Chance(1, 4) {
+			nb = pick(x.r, []int64{0, -1, -1 << 63, -62135596800, 1})
+		}
+		return x.remember(&macaroon.ValidityWindow{NotBefore: nb, NotAfter: na})
+	case 4:
+		// an empty or one-instant window
+		x.stat("gen.window.degenerate")
+		b := x.bound()
+		return x.remember(&macaroon.ValidityWindow{NotBefore: b, NotAfter: b - int64(x.r.Intn(2))})
+	default:
+		x.stat("gen.window.any")
+		return x.remember(&macaroon.ValidityWindow{NotBefore: x.bound(), NotAfter: x.bound()})
 	}
-	return &macaroon.ValidityWindow{NotBefore: x.bound(), NotAfter: x.bound()}
 }
 
 func (x *scopeCtx) leaf() macaroon.Caveat {
@@ -118,40 +276,93 @@ func (x *scopeCtx) leaf() macaroon.Caveat {
 	case 4:
 		return x.windowCav()
 	default:
-		a := pick(x.r, scMasks)
+		a := x.mask()
 		return &a
 	}
 }
 
 func (x *scopeCtx) condCav(depth int) macaroon.Caveat {
-	n := x.r.Intn(4)
+	if x.r.Chance(1, 25) {
+		// a conditional without its Ifs (what the decoder leaves for a wire nil): GetCaveats finds nothing in it,
+		// clearing refuses it
+		x.stat("gen.cond.nilifs")
+		return &resset.IfPresent{Else: x.mask()}
+	}
+	n := pick(x.r, []int{0, 1, 1, 2, 2, 3, 3, 4, 5})
+	x.stat(fmt.Sprintf("gen.cond.children%d", n))
 	cs := make([]macaroon.Caveat, n)
 	for i := range cs {
-		if depth > 0 && x.r.Chance(1, 3) {
+		switch {
+		case depth > 0 && x.r.Chance(1, 3):
 			cs[i] = x.condCav(depth - 1)
-		} else {
+		case len(x.recent) > 0 && x.r.Chance(1, 8):
+			// the very object that also sits elsewhere (in this set or an earlier one)
+			x.stat("gen.cond.aliased-child")
+			cs[i] = pick(x.r, x.recent)
+		default:
 			cs[i] = x.leaf()
 		}
 	}
-	return &resset.IfPresent{Ifs: macaroon.NewCaveatSet(cs...), Else: pick(x.r, scMasks)}
+	return &resset.IfPresent{Ifs: macaroon.NewCaveatSet(cs...), Else: x.mask()}
 }
 
 func scWrapCond(els resset.Action, cs ...macaroon.Caveat) macaroon.Caveat {
 	return &resset.IfPresent{Ifs: macaroon.NewCaveatSet(cs...), Else: els}
 }
 
-// a set mixing 0-3 caveats of each of the six kinds (plus, sometimes, noise of any other kind)
+// a set mixing 0-3 (sometimes up to 6) caveats of each of the six kinds (plus, sometimes, noise of any other kind),
+// shuffled; sometimes with repeated elements: the same object twice, an equal copy, one object at top level and
+// inside a conditional, one CaveatSet shared by two conditionals
 func (x *scopeCtx) mixedSet() []macaroon.Caveat {
 	var cs []macaroon.Caveat
-	gens := []func() macaroon.Caveat{x.orgCav, x.appsCav, x.clustersCav, x.featureCav, func() macaroon.Caveat { return x.condCav(2) }, x.windowCav}
+	maxDepth := pick(x.r, []int{1, 2, 2, 2, 3, 4})
+	if x.thorough && x.r.Chance(1, 10) {
+		maxDepth = 6
+	}
+	gens := []func() macaroon.Caveat{x.orgCav, x.appsCav, x.clustersCav, x.featureCav, func() macaroon.Caveat { return x.condCav(maxDepth) }, x.windowCav}
 	weights := [][]int{{0, 1, 1, 1, 2, 3}, {0, 0, 1, 1, 2, 3}, {0, 0, 0, 1, 2, 3}, {0, 0, 0, 1, 2, 3}, {0, 0, 1, 1, 2, 3}, {0, 0, 0, 1, 2, 3}}
+	many := x.r.Chance(1, 12)
+	if many {
+		x.stat("gen.set.many-of-a-kind")
+	}
 	for k, g := range gens {
-		for i, n := 0, pick(x.r, weights[k]); i < n; i++ {
+		n := pick(x.r, weights[k])
+		if many && x.r.Chance(1, 2) {
+			n = 4 + x.r.Intn(3)
+		}
+		for i := 0; i < n; i++ {
 			cs = append(cs, g())
 		}
 	}
 	if x.r.Chance(1, 6) {
 		cs = append(cs, x.r.Cav(1))
+	}
+	if len(cs) > 0 && x.r.Chance(1, 6) {
+		c := pick(x.r, cs)
+		switch x.r.Intn(4) {
+		case 0:
+			x.stat("gen.set.dup.same-object")
+			cs = append(cs, c)
+		case 1:
+			x.stat("gen.set.dup.same-object-in-cond")
+			cs = append(cs, scWrapCond(x.mask(), c))
+		case 2:
+			if ip, ok := c.(*resset.IfPresent); ok && ip.Ifs != nil {
+				x.stat("gen.set.dup.shared-ifs")
+				cs = append(cs, &resset.IfPresent{Ifs: ip.Ifs, Else: x.mask()})
+			} else {
+				x.stat("gen.set.dup.same-object")
+				cs = append(cs, c, c)
+			}
+		default:
+			// an equal caveat that is another object
+			if cp, err := macaroon.NewCaveatSet(c).MarshalMsgpack(); err == nil {
+				if dec, err := macaroon.DecodeCaveats(cp); err == nil && len(dec.Caveats) == 1 && sxCav(dec.Caveats[0]) == sxCav(c) {
+					x.stat("gen.set.dup.equal-copy")
+					cs = append(cs, dec.Caveats[0])
+				}
+			}
+		}
 	}
 	for i := len(cs) - 1; i > 0; i-- {
 		j := x.r.Intn(i + 1)
@@ -255,6 +466,71 @@ func scLeafClass(res string) string {
 	return strings.Join(ls, "+")
 }
 
+// ---- id universes of the brute-force oracle ----
+// primary: the fixed ids (every request shape, organization and action is tried for them); variants: every other id
+// the set itself mentions (an id a caveat names and the helper leaves out is the first candidate for "left out, yet
+// clears") and ids derived from the mentioned ones the way a sloppy comparison would fold them (letter case, white
+// space, a separator more or less, one byte more or less; the low 32 bits, bit 63 flipped, a neighbour) - these are
+// tried at the weakest demand only (empty action: clearing is monotone in the action), two organizations.
+
+func scU64Universe(fixed, mentioned []uint64) (primary, variants []uint64) {
+	seen := map[uint64]bool{}
+	for _, v := range fixed {
+		if !seen[v] {
+			seen[v] = true
+			primary = append(primary, v)
+		}
+	}
+	for _, v := range mentioned {
+		if !seen[v] {
+			seen[v] = true
+			variants = append(variants, v)
+		}
+	}
+	for _, v := range mentioned {
+		for _, w := range []uint64{v & 0xffffffff, v | 1<<32, v ^ 1<<63, v &^ (1 << 63), v + 1, v - 1, uint64(int64(int32(v)))} {
+			if !seen[w] {
+				seen[w] = true
+				variants = append(variants, w)
+			}
+		}
+	}
+	return
+}
+
+func scStrUniverse(fixed, mentioned []string) (primary, variants []string) {
+	seen := map[string]bool{}
+	for _, v := range fixed {
+		if !seen[v] {
+			seen[v] = true
+			primary = append(primary, v)
+		}
+	}
+	for _, v := range mentioned {
+		if !seen[v] {
+			seen[v] = true
+			variants = append(variants, v)
+		}
+	}
+	for _, v := range mentioned {
+		ws := []string{strings.ToLower(v), strings.ToUpper(v), strings.TrimSpace(v), strings.Trim(v, "/"), strings.TrimRight(v, "\x00"),
+			strings.ToValidUTF8(v, "\uFFFD"), v + "a", v + "/", v + " ", v + "\x00", "a" + v}
+		if len(v) > 0 {
+			ws = append(ws, v[:len(v)-1], v[1:])
+		}
+		if i := strings.IndexAny(v, "/,:;. "); i >= 0 {
+			ws = append(ws, v[:i], v[i+1:])
+		}
+		for _, w := range ws {
+			if !seen[w] {
+				seen[w] = true
+				variants = append(variants, w)
+			}
+		}
+	}
+	return
+}
+
 type scSetOps struct{ org, app, cluster, allow, exp bool }
 
 var scAllOps = scSetOps{true, true, true, true, true}
@@ -280,11 +556,19 @@ func (x *scopeCtx) runSet(cavs []macaroon.Caveat, ops scSetOps, actions []resset
 	var apps []*flyio.Apps
 	var clusters []*flyio.Clusters
 	var windows []*macaroon.ValidityWindow
+	var orgIDs, appIDs []uint64 // every id a caveat of the set mentions
+	var clusterIDs []string
 	maxDepth := 0
+	seenObj := map[macaroon.Caveat]bool{}
+	aliased := false
 	scWalkCavs(cavs, 0, func(c macaroon.Caveat, depth int) {
 		if depth > maxDepth {
 			maxDepth = depth
 		}
+		if seenObj[c] {
+			aliased = true
+		}
+		seenObj[c] = true
 		nested := ""
 		if depth > 0 {
 			nested = ".nested"
@@ -292,12 +576,19 @@ func (x *scopeCtx) runSet(cavs []macaroon.Caveat, ops scSetOps, actions []resset
 		switch v := c.(type) {
 		case *flyio.Organization:
 			orgs = append(orgs, v)
+			orgIDs = append(orgIDs, v.ID)
 			x.stat("kind.org" + nested)
 		case *flyio.Apps:
 			apps = append(apps, v)
+			for id := range v.Apps {
+				appIDs = append(appIDs, id)
+			}
 			x.stat("kind.apps" + nested)
 		case *flyio.Clusters:
 			clusters = append(clusters, v)
+			for id := range v.Clusters {
+				clusterIDs = append(clusterIDs, id)
+			}
 			x.stat("kind.clusters" + nested)
 		case *macaroon.ValidityWindow:
 			windows = append(windows, v)
@@ -306,15 +597,42 @@ func (x *scopeCtx) runSet(cavs []macaroon.Caveat, ops scSetOps, actions []resset
 			x.stat("kind.feature" + nested)
 		case *resset.IfPresent:
 			x.stat("kind.cond" + nested)
+			if v.Ifs == nil {
+				x.stat("kind.cond.nilifs")
+			}
 		default:
 			x.stat("kind.other" + nested)
 		}
 	})
-	x.stat(fmt.Sprintf("set.depth%d", maxDepth))
+	sort.Slice(orgIDs, func(i, j int) bool { return orgIDs[i] < orgIDs[j] })
+	sort.Slice(appIDs, func(i, j int) bool { return appIDs[i] < appIDs[j] })
+	sort.Strings(clusterIDs)
+	if maxDepth > 4 {
+		x.stat("set.depth5+")
+	} else {
+		x.stat(fmt.Sprintf("set.depth%d", maxDepth))
+	}
+	if aliased {
+		x.stat("set.with-shared-object")
+	}
+	for _, n := range []struct {
+		k string
+		n int
+	}{{"org", len(orgs)}, {"apps", len(apps)}, {"clusters", len(clusters)}, {"window", len(windows)}} {
+		switch {
+		case n.n >= 4:
+			x.stat("set." + n.k + ".4+")
+		case n.n >= 2:
+			x.stat("set." + n.k + ".2-3")
+		}
+	}
 	x.stat("sets")
 
+	// first answers, for the purity check at the end
+	first := map[string]string{}
+
 	// ---- OrganizationScope ----
-	if ops.org {
+	orgObs := func() (uint64, error, string) {
 		var org uint64
 		var oerr error
 		res := guard(func() string {
@@ -324,11 +642,19 @@ func (x *scopeCtx) runSet(cavs []macaroon.Caveat, ops scSetOps, actions []resset
 			}
 			return fmt.Sprintf("org:%d", org)
 		})
+		return org, oerr, res
+	}
+	if ops.org {
+		org, oerr, res := orgObs()
+		first["org"] = res
 		o.emit("(scope.org "+C+")", res)
 		switch {
-		case strings.HasPrefix(res, "org:0"):
+		case res == "org:0":
 			x.stat("org.ok.wildcard")
 		case strings.HasPrefix(res, "org:"):
+			if org > 3 {
+				x.stat("org.ok.wide-id")
+			}
 			x.stat("org.ok")
 		default:
 			x.stat("org.err." + scLeafClass(res))
@@ -343,10 +669,10 @@ func (x *scopeCtx) runSet(cavs []macaroon.Caveat, ops scSetOps, actions []resset
 					return fmt.Sprintf("unsound:org-caveat-denies:%d", org)
 				}
 			}
-			ids := append(append([]uint64{}, scOrgIDs...), scProbeOrg, 999)
+			ids, variants := scU64Universe(append(append([]uint64{}, scOrgIDs...), scProbeOrg, 999), orgIDs)
 			if org == 0 {
 				// (c) wildcard scope: every organization clears the organization caveats
-				for _, id := range ids {
+				for _, id := range append(ids, variants...) {
 					id := id
 					for _, c := range orgs {
 						if c.Prohibits(&flyio.Access{OrgID: &id, Action: resset.ActionNone}) != nil {
@@ -357,17 +683,32 @@ func (x *scopeCtx) runSet(cavs []macaroon.Caveat, ops scSetOps, actions []resset
 				return "sound"
 			}
 			// (b) no request naming another organization clears the whole set
+			probes := func(id *uint64) []scProbe {
+				return []scProbe{{org: id}, {org: id, app: p64(1)},
+					{org: id, feature: pstr(flyio.FeatureLFSC), cluster: pstr("a")}, {org: id, feature: pstr("wg")}}
+			}
 			for _, id := range ids {
 				if id == org {
 					continue
 				}
 				id := id
 				for _, act := range scOracleActions {
-					for _, p := range []scProbe{{org: &id}, {org: &id, app: p64(1)},
-						{org: &id, feature: pstr(flyio.FeatureLFSC), cluster: pstr("a")}, {org: &id, feature: pstr("wg")}} {
+					for _, p := range probes(&id) {
 						if scAnyClears(cs, x.shapes(p, act, x.wnow, 0)) {
 							return fmt.Sprintf("unsound:other-org-clears:%d", id)
 						}
+					}
+				}
+			}
+			for _, id := range variants {
+				if id == org {
+					continue
+				}
+				id := id
+				x.stat("oracle.org.variant-probe")
+				for _, p := range probes(&id)[:2] {
+					if scAnyClears(cs, x.shapes(p, 0, x.wnow, 0)) {
+						return fmt.Sprintf("unsound:other-org-clears:%d", id)
 					}
 				}
 			}
@@ -377,7 +718,7 @@ func (x *scopeCtx) runSet(cavs []macaroon.Caveat, ops scSetOps, actions []resset
 	}
 
 	// ---- AppScope ----
-	if ops.app {
+	appObs := func() ([]uint64, string) {
 		var scope []uint64
 		res := guard(func() string {
 			scope = flyio.AppScope(cs)
@@ -386,6 +727,11 @@ func (x *scopeCtx) runSet(cavs []macaroon.Caveat, ops scSetOps, actions []resset
 			}
 			return "apps:" + scIDList(scope)
 		})
+		return scope, res
+	}
+	if ops.app {
+		scope, res := appObs()
+		first["app"] = res
 		o.emit("(scope.app "+C+")", res)
 		switch {
 		case scope == nil:
@@ -396,14 +742,22 @@ func (x *scopeCtx) runSet(cavs []macaroon.Caveat, ops scSetOps, actions []resset
 			}
 		case len(scope) == 0:
 			x.stat("app.empty")
+		case len(scope) > 3:
+			x.stat("app.list4+")
 		default:
 			x.stat(fmt.Sprintf("app.list%d", len(scope)))
+		}
+		for _, id := range scope {
+			if id > 3 {
+				x.stat("app.list.with-wide-id")
+				break
+			}
 		}
 		verdict := guard(func() string {
 			if strings.HasPrefix(res, "panic") {
 				return "sound"
 			}
-			ids := append(append([]uint64{}, scAppIDs...), scProbeApp, 999)
+			ids, variants := scU64Universe(append(append([]uint64{}, scAppIDs...), scProbeApp, 999), appIDs)
 			clearsKind := func(id uint64) bool {
 				for _, c := range apps {
 					if c.Prohibits(&flyio.Access{OrgID: p64(999), AppID: &id, Action: resset.ActionNone}) != nil {
@@ -413,7 +767,7 @@ func (x *scopeCtx) runSet(cavs []macaroon.Caveat, ops scSetOps, actions []resset
 				return true
 			}
 			if scope == nil {
-				for _, id := range ids {
+				for _, id := range append(ids, variants...) {
 					if !clearsKind(id) {
 						return fmt.Sprintf("unsound:unrestricted-but-denied:%d", id)
 					}
@@ -441,13 +795,26 @@ func (x *scopeCtx) runSet(cavs []macaroon.Caveat, ops scSetOps, actions []resset
 					}
 				}
 			}
+			for _, id := range variants {
+				if scHasU64(scope, id) {
+					continue
+				}
+				id := id
+				x.stat("oracle.app.variant-probe")
+				for _, org := range []uint64{1, 999} {
+					org := org
+					if scAnyClears(cs, x.shapes(scProbe{org: &org, app: &id}, 0, x.wnow, 0)) {
+						return fmt.Sprintf("unsound:left-out-clears:%d", id)
+					}
+				}
+			}
 			return "sound"
 		})
 		x.spec("(spec.scope.app "+C+")", verdict)
 	}
 
 	// ---- ClusterScope ----
-	if ops.cluster {
+	clusterObs := func() ([]string, string) {
 		var scope []string
 		res := guard(func() string {
 			scope = flyio.ClusterScope(cs)
@@ -460,6 +827,11 @@ func (x *scopeCtx) runSet(cavs []macaroon.Caveat, ops scSetOps, actions []resset
 			}
 			return "clusters:" + strings.Join(parts, ",")
 		})
+		return scope, res
+	}
+	if ops.cluster {
+		scope, res := clusterObs()
+		first["cluster"] = res
 		o.emit("(scope.cluster "+C+")", res)
 		switch {
 		case scope == nil:
@@ -472,14 +844,22 @@ func (x *scopeCtx) runSet(cavs []macaroon.Caveat, ops scSetOps, actions []resset
 			x.stat("cluster.empty")
 		case scHasStr(scope, ""):
 			x.stat("cluster.list.with-wildcard")
+		case len(scope) > 3:
+			x.stat("cluster.list4+")
 		default:
 			x.stat(fmt.Sprintf("cluster.list%d", len(scope)))
+		}
+		for _, id := range scope {
+			if !scHasStr(scClusterIDs, id) {
+				x.stat("cluster.list.with-wide-id")
+				break
+			}
 		}
 		verdict := guard(func() string {
 			if strings.HasPrefix(res, "panic") {
 				return "sound"
 			}
-			ids := append(append([]string{}, scClusterIDs...), scProbeCluster, "abc")
+			ids, variants := scStrUniverse(append(append([]string{}, scClusterIDs...), scProbeCluster, "abc", "A"), clusterIDs)
 			clearsKind := func(id string) bool {
 				for _, c := range clusters {
 					if c.Prohibits(&flyio.Access{OrgID: p64(999), Feature: pstr(flyio.FeatureLFSC), Cluster: &id, Action: resset.ActionNone}) != nil {
@@ -489,7 +869,7 @@ func (x *scopeCtx) runSet(cavs []macaroon.Caveat, ops scSetOps, actions []resset
 				return true
 			}
 			if scope == nil {
-				for _, id := range ids {
+				for _, id := range append(ids, variants...) {
 					if !clearsKind(id) {
 						return "unsound:unrestricted-but-denied:" + hs(id)
 					}
@@ -517,6 +897,19 @@ func (x *scopeCtx) runSet(cavs []macaroon.Caveat, ops scSetOps, actions []resset
 					}
 				}
 			}
+			for _, id := range variants {
+				if scHasStr(scope, id) {
+					continue
+				}
+				id := id
+				x.stat("oracle.cluster.variant-probe")
+				for _, org := range []uint64{1, 999} {
+					org := org
+					if scAnyClears(cs, x.shapes(scProbe{org: &org, feature: pstr(flyio.FeatureLFSC), cluster: &id}, 0, x.wnow, 0)) {
+						return "unsound:left-out-clears:" + hs(id)
+					}
+				}
+			}
 			return "sound"
 		})
 		x.spec("(spec.scope.cluster "+C+")", verdict)
@@ -524,7 +917,7 @@ func (x *scopeCtx) runSet(cavs []macaroon.Caveat, ops scSetOps, actions []resset
 
 	// ---- AppsAllowing ----
 	if ops.allow {
-		for _, act := range actions {
+		for ai, act := range actions {
 			var org uint64
 			var ids []uint64
 			var aerr error
@@ -538,20 +931,40 @@ func (x *scopeCtx) runSet(cavs []macaroon.Caveat, ops scSetOps, actions []resset
 				}
 				return fmt.Sprintf("allow:%d:%s", org, scIDList(ids))
 			})
+			if ai == 0 {
+				first["allow"] = res
+			}
 			o.emit(fmt.Sprintf("(scope.appsAllowing %s %d %d 0)", C, uint16(act), x.wnow), res)
 			switch {
 			case aerr != nil:
 				x.stat("allow.err." + scLeafClass(res))
 			case ids == nil:
 				x.stat("allow.ok.nil")
+			case len(ids) > 3:
+				x.stat("allow.ok.list4+")
 			default:
 				x.stat(fmt.Sprintf("allow.ok.list%d", len(ids)))
+			}
+			if aerr == nil {
+				switch {
+				case act == 0:
+					x.stat("allow.ok.action.none")
+				case act&^31 != 0:
+					x.stat("allow.ok.action.high-bits")
+				case act&(act-1) == 0:
+					x.stat("allow.ok.action.single-bit")
+				case act == 31:
+					x.stat("allow.ok.action.all")
+				default:
+					x.stat("allow.ok.action.several-bits")
+				}
 			}
 			verdict := guard(func() string {
 				if aerr != nil || strings.HasPrefix(res, "panic") {
 					return "sound"
 				}
-				universe := append(append([]uint64{}, scAppIDs...), scProbeApp, 999)
+				primary, variants := scU64Universe(append(append([]uint64{}, scAppIDs...), scProbeApp, 999), appIDs)
+				universe := append(primary, variants...)
 				for _, id := range universe {
 					id := id
 					clears := cs.Validate(&flyio.Access{OrgID: &org, AppID: &id, Action: act}) == nil
@@ -593,6 +1006,45 @@ func (x *scopeCtx) runSet(cavs []macaroon.Caveat, ops scSetOps, actions []resset
 			return expObs(vm.Expiration())
 		})
 		o.emit("(scope.vexpiration "+C+")", resV)
+		// the same through the API: a minted token carrying the caveats, the token decoded from its bytes, the caveat set
+		// its verification returns ("skip" when the set cannot be attenuated onto / verified as a plain token)
+		resAPI := guard(func() string {
+			key := macaroon.SigningKey(scTokenKey)
+			m, err := macaroon.New([]byte("scope"), "https://loc", key)
+			if err != nil {
+				return "skip"
+			}
+			if err := m.Add(cavs...); err != nil {
+				x.stat("exp.api.skip-add")
+				return "skip"
+			}
+			if got := expObs(m.Expiration()); got != res {
+				return "minted:" + got
+			}
+			buf, err := m.Encode()
+			if err != nil {
+				x.stat("exp.api.skip-encode")
+				return "skip"
+			}
+			dec, err := macaroon.Decode(buf)
+			if err != nil {
+				x.stat("exp.api.skip-decode")
+				return "skip"
+			}
+			if got := expObs(dec.Expiration()); got != res {
+				return "decoded:" + got
+			}
+			vcs, err := dec.Verify(key, nil, nil)
+			if err != nil {
+				x.stat("exp.api.skip-verify")
+				return "skip"
+			}
+			if got := expObs((&bundle.VerifiedMacaroon{Caveats: vcs}).Expiration()); got != res {
+				return "verified:" + got
+			}
+			x.stat("exp.api.compared")
+			return "same"
+		})
 		switch {
 		case len(windows) == 0:
 			x.stat("exp.max.nowindow")
@@ -600,6 +1052,8 @@ func (x *scopeCtx) runSet(cavs []macaroon.Caveat, ops scSetOps, actions []resset
 			x.stat("exp.max.unbounded-windows")
 		case exp.Unix() < x.wnow:
 			x.stat("exp.past")
+		case exp.Unix() >= 1<<31:
+			x.stat("exp.future.beyond-2038")
 		default:
 			x.stat("exp.future")
 		}
@@ -609,6 +1063,9 @@ func (x *scopeCtx) runSet(cavs []macaroon.Caveat, ops scSetOps, actions []resset
 			}
 			if res != resV {
 				return "unsound:variants-differ:0"
+			}
+			if resAPI != "skip" && resAPI != "same" {
+				return "unsound:variants-differ:" + strings.SplitN(resAPI, ":", 2)[0]
 			}
 			if exp.Equal(scMaxTime) {
 				return "sound" // no instant lies after maxTime
@@ -632,9 +1089,77 @@ func (x *scopeCtx) runSet(cavs []macaroon.Caveat, ops scSetOps, actions []resset
 					}
 				}
 			}
+			// further instants, at the weakest demand: a minute, a day, 2^31 and 2^32 seconds later, and the other bounds
+			// of the set's own windows that lie after the computed expiry
+			var more []inst
+			for _, d := range []int64{60, 86400, 1 << 31, 1 << 32} {
+				if es < scMaxUnix-d {
+					more = append(more, inst{es + d, 0})
+				}
+			}
+			seenB := map[int64]bool{}
+			for _, w := range windows {
+				for _, b := range []int64{w.NotBefore, w.NotAfter} {
+					if b > es && b <= scMaxUnix && !seenB[b] {
+						seenB[b] = true
+						more = append(more, inst{b, 0})
+					}
+				}
+			}
+			for _, t := range more {
+				x.stat("oracle.exp.more-instants")
+				for _, p := range []scProbe{{}, {org: p64(1), app: p64(1)}} {
+					if scAnyClears(cs, x.shapes(p, 0, t.s, t.n)) {
+						return fmt.Sprintf("unsound:clears-after-expiry:%d.%09d", t.s, t.n)
+					}
+				}
+			}
 			return "sound"
 		})
 		x.spec("(spec.scope.expiration "+C+")", verdict)
+	}
+
+	// ---- the helpers are functions of the set: asked again, in another order, they answer the same, and the set
+	// they were given is what it was ----
+	if ops.org || ops.app || ops.cluster {
+		verdict := guard(func() string {
+			if ops.cluster {
+				if _, again := clusterObs(); again != first["cluster"] {
+					return "unsound:answer-changed:cluster"
+				}
+			}
+			if ops.app {
+				if _, again := appObs(); again != first["app"] {
+					return "unsound:answer-changed:app"
+				}
+			}
+			if ops.org {
+				if _, _, again := orgObs(); again != first["org"] {
+					return "unsound:answer-changed:org"
+				}
+			}
+			if ops.allow && len(actions) > 0 && !strings.HasPrefix(first["allow"], "panic") {
+				act := actions[0]
+				again := guard(func() string {
+					org, ids, aerr := flyio.AppsAllowing(cs, act)
+					if aerr != nil {
+						return sxErr(aerr)
+					}
+					if ids == nil {
+						return fmt.Sprintf("allow:%d:nil", org)
+					}
+					return fmt.Sprintf("allow:%d:%s", org, scIDList(ids))
+				})
+				if again != first["allow"] {
+					return "unsound:answer-changed:allow"
+				}
+			}
+			if sxCavs(cavs) != C || sxCavs(cs.Caveats) != C {
+				return "unsound:set-modified:0"
+			}
+			return "sound"
+		})
+		x.spec("(spec.scope.pure "+C+")", verdict)
 	}
 }
 
@@ -708,8 +1233,8 @@ func scStrSets(ids []string, masks []resset.Action) []resset.ResourceSet[string,
 }
 
 func famScope(r *Rng, o *Out, tier string) {
-	x := &scopeCtx{r: r, o: o, wnow: time.Now().Unix()}
 	thorough := tier == "thorough"
+	x := &scopeCtx{r: r, o: o, wnow: time.Now().Unix(), thorough: thorough}
 
 	// fixed cases first: the documented examples and the witness of F11 (repaired)
 	fixed := [][]macaroon.Caveat{
@@ -737,7 +1262,7 @@ func famScope(r *Rng, o *Out, tier string) {
 	}
 	for i := 0; i < n; i++ {
 		cavs := x.mixedSet()
-		x.runSet(cavs, scAllOps, []resset.Action{pick(r, scActions), pick(r, scMasks)})
+		x.runSet(cavs, scAllOps, []resset.Action{pick(r, scActions), x.action(), x.action()})
 		o.count("mixed")
 	}
 
@@ -748,14 +1273,14 @@ func famScope(r *Rng, o *Out, tier string) {
 
 	// E1 organization caveats
 	var orgPool []scMk
-	for _, id := range []uint64{0, 1, 2} {
+	for _, id := range []uint64{0, 1, 2, 1<<32 | 1, 1<<64 - 1} {
 		for _, m := range masks3 {
 			id, m := id, m
 			orgPool = append(orgPool, func() macaroon.Caveat { return &flyio.Organization{ID: id, Mask: m} })
 		}
 	}
 	scUpTo2(scPlacements(orgPool, true), func(sel []scMk) {
-		if !take(6) {
+		if !take(14) {
 			return
 		}
 		x.runSet(scBuild(sel), scSetOps{org: true, allow: true}, []resset.Action{0, 1})
@@ -764,12 +1289,12 @@ func famScope(r *Rng, o *Out, tier string) {
 
 	// E2 app caveats
 	var appsPool []scMk
-	for _, s := range scU64Sets([]uint64{0, 1, 2}, masks3) {
+	for _, s := range scU64Sets([]uint64{0, 1, 2, 1<<32 | 1}, masks3) {
 		s := s
 		appsPool = append(appsPool, func() macaroon.Caveat { return &flyio.Apps{Apps: s} })
 	}
 	scUpTo2(scPlacements(appsPool, false), func(sel []scMk) {
-		if !take(25) {
+		if !take(60) {
 			return
 		}
 		x.runSet(scBuild(sel), scSetOps{app: true}, nil)
@@ -778,12 +1303,12 @@ func famScope(r *Rng, o *Out, tier string) {
 
 	// E3 cluster caveats
 	var clPool []scMk
-	for _, s := range scStrSets([]string{"", "a", "b"}, masks3) {
+	for _, s := range scStrSets([]string{"", "a", "b", "A"}, masks3) {
 		s := s
 		clPool = append(clPool, func() macaroon.Caveat { return &flyio.Clusters{Clusters: s} })
 	}
 	scUpTo2(scPlacements(clPool, false), func(sel []scMk) {
-		if !take(25) {
+		if !take(60) {
 			return
 		}
 		x.runSet(scBuild(sel), scSetOps{cluster: true}, nil)
@@ -828,7 +1353,8 @@ func famScope(r *Rng, o *Out, tier string) {
 
 	// E5 validity windows
 	var vwPool []scMk
-	for _, na := range []int64{x.wnow - 3600, x.wnow + 3600, baseNow, scMaxUnix - 1, scMaxUnix, 1<<63 - 1, -1 << 63, 0} {
+	for _, na := range []int64{x.wnow - 3600, x.wnow + 3600, baseNow, scMaxUnix - 1, scMaxUnix, 1<<63 - 1, -1 << 63, 0,
+		1<<31 - 1, 1 << 31, 1 << 32, 253402300800, -1} {
 		for _, nb := range []int64{0, x.wnow - 86400} {
 			na, nb := na, nb
 			vwPool = append(vwPool, func() macaroon.Caveat { return &macaroon.ValidityWindow{NotBefore: nb, NotAfter: na} })
@@ -845,7 +1371,7 @@ func famScope(r *Rng, o *Out, tier string) {
 			})
 	}
 	scUpTo2(vwPlaced, func(sel []scMk) {
-		if !take(20) {
+		if !take(45) {
 			return
 		}
 		x.runSet(scBuild(sel), scSetOps{exp: true}, nil)
@@ -874,6 +1400,11 @@ func famScope(r *Rng, o *Out, tier string) {
 			condPool = append(condPool, func() macaroon.Caveat { return scWrapCond(els, in()) })
 		}
 	}
+	for _, els := range masks3 {
+		els := els
+		condPool = append(condPool, func() macaroon.Caveat { return &resset.IfPresent{Else: els} }, // no Ifs at all
+			func() macaroon.Caveat { return scWrapCond(els) }) // empty Ifs
+	}
 	for _, f := range []resset.ResourceSet[string, resset.Action]{{"wg": 31}, {"": 1}, {flyio.FeatureLFSC: 31}} {
 		f := f
 		condPool = append(condPool, func() macaroon.Caveat { return &flyio.FeatureSet{Features: f} })
@@ -888,7 +1419,7 @@ func famScope(r *Rng, o *Out, tier string) {
 	}
 	for _, base := range bases {
 		scUpTo2(condPool, func(sel []scMk) {
-			if !take(12) {
+			if !take(18) {
 				return
 			}
 			x.runSet(append(scBuild(base), scBuild(sel)...), scAllOps, []resset.Action{1, 31})
@@ -896,4 +1427,163 @@ func famScope(r *Rng, o *Out, tier string) {
 		})
 	}
 
+	// E7 cluster ids that a sloppy comparison would identify: each wide id x with each of its variants y (other case,
+	// trimmed, a separator or a byte more or less), alone / in one map / in two caveats / one of them in a conditional
+	all31 := resset.Action(31)
+	for _, xid := range append(append([]string{}, scClusterIDs...), scClusterWide...) {
+		_, vs := scStrUniverse(nil, []string{xid})
+		if take(3) {
+			x.runSet([]macaroon.Caveat{&flyio.Clusters{Clusters: resset.ResourceSet[string, resset.Action]{xid: all31}}}, scSetOps{cluster: true}, nil)
+			o.count("exh.cluster-variants")
+		}
+		for _, yid := range vs {
+			xid, yid := xid, yid
+			for k, mk := range []func() []macaroon.Caveat{
+				func() []macaroon.Caveat {
+					return []macaroon.Caveat{&flyio.Clusters{Clusters: resset.ResourceSet[string, resset.Action]{xid: all31, yid: 1}}}
+				},
+				func() []macaroon.Caveat {
+					return []macaroon.Caveat{&flyio.Clusters{Clusters: resset.ResourceSet[string, resset.Action]{xid: all31}},
+						&flyio.Clusters{Clusters: resset.ResourceSet[string, resset.Action]{yid: all31}}}
+				},
+				func() []macaroon.Caveat {
+					return []macaroon.Caveat{&flyio.Clusters{Clusters: resset.ResourceSet[string, resset.Action]{xid: all31, yid: all31}},
+						scWrapCond(0, &flyio.Clusters{Clusters: resset.ResourceSet[string, resset.Action]{yid: all31}})}
+				},
+			} {
+				if !take(6) {
+					continue
+				}
+				x.runSet(mk(), scSetOps{cluster: true}, nil)
+				o.count(fmt.Sprintf("exh.cluster-variants.shape%d", k))
+			}
+		}
+	}
+
+	// E8 the same for app and organization ids: each wide id x with the ids that share its low 32 bits, differ in
+	// bit 63 or by one
+	for _, xid := range scIDsWide {
+		_, vs := scU64Universe(nil, []uint64{xid})
+		if take(3) {
+			x.runSet([]macaroon.Caveat{&flyio.Organization{ID: 1, Mask: all31}, &flyio.Apps{Apps: resset.ResourceSet[uint64, resset.Action]{xid: all31}}},
+				scSetOps{app: true, allow: true}, []resset.Action{1})
+			x.runSet([]macaroon.Caveat{&flyio.Organization{ID: xid, Mask: all31}, &flyio.Apps{Apps: resset.ResourceSet[uint64, resset.Action]{1: all31, xid: 3}}},
+				scSetOps{org: true, app: true, allow: true}, []resset.Action{1})
+			o.count("exh.id-variants")
+		}
+		for _, yid := range vs {
+			xid, yid := xid, yid
+			for k, mk := range []func() []macaroon.Caveat{
+				func() []macaroon.Caveat {
+					return []macaroon.Caveat{&flyio.Organization{ID: 1, Mask: all31}, &flyio.Apps{Apps: resset.ResourceSet[uint64, resset.Action]{xid: all31, yid: 1}}}
+				},
+				func() []macaroon.Caveat {
+					return []macaroon.Caveat{&flyio.Organization{ID: 1, Mask: all31}, &flyio.Apps{Apps: resset.ResourceSet[uint64, resset.Action]{xid: all31}},
+						&flyio.Apps{Apps: resset.ResourceSet[uint64, resset.Action]{yid: all31}}}
+				},
+				func() []macaroon.Caveat {
+					return []macaroon.Caveat{&flyio.Organization{ID: 1, Mask: all31}, &flyio.Apps{Apps: resset.ResourceSet[uint64, resset.Action]{xid: all31, yid: all31}},
+						scWrapCond(0, &flyio.Apps{Apps: resset.ResourceSet[uint64, resset.Action]{yid: 3}})}
+				},
+				func() []macaroon.Caveat {
+					return []macaroon.Caveat{&flyio.Organization{ID: xid, Mask: all31}, &flyio.Organization{ID: yid, Mask: all31}}
+				},
+				func() []macaroon.Caveat {
+					return []macaroon.Caveat{&flyio.Organization{ID: xid, Mask: all31}, scWrapCond(0, &flyio.Organization{ID: yid, Mask: all31})}
+				},
+			} {
+				if !take(5) {
+					continue
+				}
+				x.runSet(mk(), scSetOps{org: true, app: true, allow: true}, []resset.Action{1, 2})
+				o.count(fmt.Sprintf("exh.id-variants.shape%d", k))
+			}
+		}
+	}
+
+	// E9 "any masks ... every action": AppsAllowing over the mask lattice. The action is drawn first; every mask of
+	// the set is then the action plus extra bits, the action minus one of its bits, or any mask at all, so that
+	// answers of every kind (unrestricted, a list, a shorter list, refused) occur for every action
+	nMask := 600
+	if thorough {
+		nMask = 6000
+	}
+	bits := []resset.Action{1, 2, 4, 8, 16, 32, 0x100, 0x8000}
+	for i := 0; i < nMask; i++ {
+		act := pick(r, []resset.Action{1, 2, 4, 8, 16, 3, 5, 6, 10, 15, 17, 24, 27, 30, 31, 32, 33, 0x8000, 0x801f, 0xffff, 0})
+		if r.Chance(1, 5) {
+			act = resset.Action(r.U64())
+		}
+		near := func() resset.Action {
+			switch r.Intn(6) {
+			case 0, 1:
+				return act | pick(r, bits) | pick(r, bits)
+			case 2:
+				return act
+			case 3, 4:
+				m := act
+				for _, b := range bits {
+					if act&b != 0 && r.Chance(1, 2) {
+						m &^= b
+						break
+					}
+				}
+				if m == act {
+					m = act &^ (act & -act) // drop the lowest bit
+				}
+				return m | pick(r, bits)&^act
+			default:
+				return x.mask()
+			}
+		}
+		oid := pick(r, []uint64{1, 1, 0, 999})
+		var cavs []macaroon.Caveat
+		switch r.Intn(6) {
+		case 0:
+			cavs = []macaroon.Caveat{&flyio.Organization{ID: oid, Mask: near()}}
+		case 1:
+			cavs = []macaroon.Caveat{&flyio.Organization{ID: oid, Mask: near()}, &flyio.Apps{Apps: resset.ResourceSet[uint64, resset.Action]{0: near()}}}
+		case 2:
+			cavs = []macaroon.Caveat{&flyio.Organization{ID: oid, Mask: near()}, &flyio.Apps{Apps: resset.ResourceSet[uint64, resset.Action]{1: near(), 2: near(), 3: near()}}}
+		case 3:
+			cavs = []macaroon.Caveat{&flyio.Organization{ID: oid, Mask: near()}, &flyio.Apps{Apps: resset.ResourceSet[uint64, resset.Action]{1: near(), 2: near()}},
+				&flyio.Apps{Apps: resset.ResourceSet[uint64, resset.Action]{1: near(), 2: near(), 3: near()}}}
+		case 4:
+			cavs = []macaroon.Caveat{&flyio.Organization{ID: oid, Mask: near()}, scWrapCond(near(), &flyio.Apps{Apps: resset.ResourceSet[uint64, resset.Action]{1: near(), 2: near()}})}
+		default:
+			a := near()
+			cavs = []macaroon.Caveat{&flyio.Organization{ID: oid, Mask: near()}, &a, scWrapCond(near(), &flyio.FeatureSet{Features: resset.ResourceSet[string, resset.Action]{"wg": near()}}),
+				&flyio.Apps{Apps: resset.ResourceSet[uint64, resset.Action]{1: near(), 1<<32 | 1: near()}}}
+		}
+		x.runSet(cavs, scSetOps{allow: true}, []resset.Action{act})
+		o.count("exh.masks")
+	}
+
+	// E10 deep chains: one caveat under d conditionals, next to a base set every helper answers for
+	depths := []int{3, 5, 8}
+	if thorough {
+		depths = append(depths, 20, 60)
+	}
+	chainLeaves := []scMk{
+		func() macaroon.Caveat { return &flyio.Organization{ID: 2, Mask: all31} },
+		func() macaroon.Caveat { return &flyio.Organization{ID: 1, Mask: 1} },
+		func() macaroon.Caveat { return &flyio.Apps{Apps: resset.ResourceSet[uint64, resset.Action]{2: all31}} },
+		func() macaroon.Caveat {
+			return &flyio.Clusters{Clusters: resset.ResourceSet[string, resset.Action]{"b": all31}}
+		},
+		func() macaroon.Caveat { return &macaroon.ValidityWindow{NotBefore: 0, NotAfter: x.wnow - 86400} },
+		func() macaroon.Caveat { return &macaroon.ValidityWindow{NotBefore: 0, NotAfter: x.wnow + 3600} },
+	}
+	for _, d := range depths {
+		for li, leaf := range chainLeaves {
+			c := leaf()
+			for i := 0; i < d; i++ {
+				c = scWrapCond(pick(r, masks3), c)
+			}
+			x.runSet([]macaroon.Caveat{&flyio.Organization{ID: 1, Mask: all31}, &flyio.Apps{Apps: resset.ResourceSet[uint64, resset.Action]{1: all31, 2: all31}},
+				&flyio.Clusters{Clusters: resset.ResourceSet[string, resset.Action]{"a": all31, "b": all31}},
+				&macaroon.ValidityWindow{NotBefore: 0, NotAfter: x.wnow + 86400}, c}, scAllOps, []resset.Action{1})
+			o.count(fmt.Sprintf("exh.chain.leaf%d", li))
+		}
+	}
 }
